@@ -19,7 +19,7 @@ EXPLANATION = (
 def run(tier, t0):
     prog = common.program()
     results = [lane.lanes(prog, 40), lane.pair(prog), lane.nodrop(prog, 8), disp.disp(prog), lane.wrap_pages(prog, 2),
-               lane.dl_width(prog), elf.layout(prog)]
+               lane.dl_width(prog), elf.layout(prog), lane.rec_sum(prog)]
     return report.finish('C03', tier, results, EXPLANATION,
                          ['format definitions (Intel hex two\'s-complement checksum, S-record one\'s-complement checksum '
                           'and length) are transcribed in rules/lane.py',
